@@ -742,6 +742,8 @@ class Executor:
             if v is not None:
                 return v
         from . import models
+        if name in ("int", "str", "bytes", "bool", "float", "list", "dict", "tuple", "set", "frozenset", "type", "object"):
+            return VClass(name)         # builtin types: classes (isinstance / type() ==) that are also callable
         if name in models.BUILTINS:
             return VFunc("builtin", name)
         if name in BUILTIN_EXC or name in ("object", "int", "str", "bytes", "bool", "float", "list", "dict", "tuple", "set",
@@ -826,6 +828,10 @@ class Executor:
             o = self.obj(state, a)
             if attr in o.fields:
                 return o.fields[attr]
+            if o.kind == "inst" and o.shape is not None:
+                ext = self.reg.virtual_method(o.shape, attr)     # declared dispatch targets win over class methods
+                if ext is not None:
+                    return VFunc("virtual", attr, self_val=a, spec=ext)
             if o.kind in ("inst", "exc") and o.cls is not None and o.cls.info is not None:
                 if attr == "__class__":
                     return o.cls
@@ -889,6 +895,8 @@ class Executor:
         if isinstance(a, VDyn):
             return pyval.getattr_(self, state, a, attr)
         if isinstance(a, VFunc):
+            if a.fkind == "logger":
+                return a
             if attr == "__name__":
                 return VStr(a.name)
             return VOpaque()
